@@ -103,7 +103,9 @@ def run(ctx):
     fpath = os.path.join(ctx.scratch, 'copyright')
     small = [t for t in texts[:ctx.n(600, 6000)] if t.strip()]
     small += [t.rstrip('\n') for t in small[:200]] + [t.rstrip() + 'z' for t in small[:100]] + [t.replace('\n', '\r\n') for t in small[:100]]
-    ff = ctx.prop('prop:file-route', [(fpath, t) for t in small + _copy.large_copyright_texts(rng, ctx.quick())], _copy.p_routes_agree)
+    large = _copy.large_copyright_texts(rng, ctx.quick())
+    ff = ctx.prop('prop:file-route', [(fpath, t) for t in small + large], _copy.p_routes_agree)
+    fails += ctx.prop('prop:conservation:large', large, p_conserve)
     fails += [(f[0][1], f[1]) for f in ff]
     fails += ctx.prop('prop:observing-changes-nothing', texts[::max(1, len(texts) // ctx.n(900, 9000))], _copy.p_observe)
     bad = ctx.compare('corr:copyright', [('copyright_from_text', [t]) for t in texts], _copy.impl)
